@@ -166,7 +166,8 @@ def _free_locals(outer, fi):
       nested.add(c.node.name)
       rec(c)
   rec(outer)
-  return [x for x in loads if x in outer_assigned and x not in params and x not in own and x not in assigned and x not in nested]
+  # a parameter of `outer` that is re-bound in its body is a local like any other (e.g. `ridge_epsilon = ridge_epsilon * ...`)
+  return [x for x in loads if x in outer_assigned and x not in own and x not in assigned and x not in nested]
 
 
 def _role_values(ev, outer, fi, roles):
@@ -186,7 +187,23 @@ def _role_values(ev, outer, fi, roles):
 
 
 def _has_eye(v):
-  return any(is_ext_call(x, 'jax.numpy.eye') for x in walk(v))
+  """v is the identity matrix, possibly cast and masked (eye(n) * mask ...): the eye call is on its product spine"""
+  v = strip_casts(v)
+  while v.op == 'ite' and any(a.op in ('unbound', 'unknown') for a in v.args[1:]):
+    v = strip_casts([a for a in v.args[1:] if a.op not in ('unbound', 'unknown')][0])
+  if is_ext_call(v, 'jax.numpy.eye'):
+    return True
+  if v.op == 'ite':
+    return _has_eye(v.args[1]) and _has_eye(v.args[2])
+  if v.op == 'bin' and v.args[0] == '*':
+    return _has_eye(v.args[1]) or _has_eye(v.args[2])
+  return False
+
+
+def _is_scaled_ridge(v):
+  """v derives from the ridge_epsilon parameter through a max(...) scaling (the ridge d actually used)"""
+  return any(x.op == 'sym' and x.args[-1] == 'ridge_epsilon' for x in walk(v)) and any(is_ext_call(x, 'jax.numpy.maximum') for x in walk(v)) and \
+      not _has_eye(v)
 
 
 def _is_float_const(v):
@@ -263,10 +280,11 @@ def newton(ctx):
   # outer retry body
   ctx.analysed(ob)
   ev2 = evaluator(m, opaque={'mat_power', 'power_iteration'})
-  vals2 = closure_values(ev2, ob, ['p', 'matrix', 'ridge_epsilon'])
+  vals2 = closure_values(ev2, ob, ['p', 'matrix'])
   mer_v = vals['max_error_ratio']
   vals2.update(_role_values(ev2, outer, ob, {'identity': _has_eye, 'max_error_ratio': lambda v: v is mer_v,
-                                             'retry_loop_error_threshold': lambda v: _is_float_const(v) and v is not mer_v}))
+                                             'retry_loop_error_threshold': lambda v: _is_float_const(v) and v is not mer_v,
+                                             'ridge_epsilon': _is_scaled_ridge}))
   ost = tup(*[sym('spec', x) for x in ['oi', 'o1', 'o2', 'o3', 'o4', 'o5']])
   r = ev2.run(ob, args={'state': ost})
   if r.op != 'tuple' or len(r.args) != 6:
